@@ -63,7 +63,7 @@ def shrink_project(execute, scenario, sig, max_attempts=250, max_seconds=45.0):
             try_(lambda c, i=i: c["ops"][i].pop("fault") and None)
     # 4. fold env ops into the initial files where possible (an env op before any doctrans op is an initial file)
     def fold(c):
-        while c["ops"] and c["ops"][0]["op"] == "env":
+        while c["ops"] and c["ops"][0]["op"] == "env" and "text" in c["ops"][0]:
             e = c["ops"].pop(0)
             if e.get("text") is None:
                 c["files"].pop(e["path"], None)
